@@ -161,8 +161,8 @@ def handle : Handler
       match refineCore g (f32 res) lab coreFuel { refined := refd, outCl := oc, inCl := ic, cw := cw } rands with
       | none => some "fuel"
       | some (l, rest) =>
-        -- third figure: 1 when the kernel's bound on the passes (n + 1) is what ended the loop
-        let capped := (refineLoop g (f32 res) lab (n + 1) { refined := refd, outCl := oc, inCl := ic, cw := cw } rands).isNone
+        -- third figure: 1 when the kernel's bound on the passes (`refinePasses`) is what ended the loop
+        let capped := (refineLoop g (f32 res) lab refinePasses { refined := refd, outCl := oc, inCl := ic, cw := cw } rands).isNone
         some s!"ok {showList l} {rest.length} {showBool capped}") "bad-args"
   -- Louvain.fit / Leiden.fit in exact arithmetic:
   -- <kind> <res> <tolOpt> <tolAgg> <nAgg> <nRow> <nCol> <indptr> <indices> <data> <forceBip> [<rands>]
@@ -239,9 +239,11 @@ def handle : Handler
       let comps := clustersWithinComponents k A cl
       some (if notWorse && logged && comps then "holds"
             else s!"fails notworse={showBool notWorse} logged={showBool logged} components={showBool comps} q0={showRat q0} q1={showRat q1} sum={showRat total}")) "bad-args"
-  -- the two objective clauses on graphs with hundreds of nodes: per-cluster form of the objective
-  -- (`objectiveFast`, proved equal to `objective`); the component clause is not evaluated here
-  | "c06.spec_fit_big", [kind, res, n, m, ip, ix, dt, fb, lab, incs, eps] => some <| Option.getD (do
+  -- the same on graphs with hundreds of nodes: per-cluster form of the objective (`objectiveFast`, proved equal to
+  -- `objective`); component clause with a certificate (`clustersWithinForest`, sound for any certificate)
+  | "c06.spec_fit_big", [kind, res, n, m, ip, ix, dt, fb, lab, incs, eps, parent, croot] => some <| Option.getD (do
+      let parent ← natList? parent
+      let croot ← natList? croot
       let kind ← kind? kind
       let res ← rat? res
       let c ← csrRat? n m ip ix dt
@@ -269,8 +271,13 @@ def handle : Handler
       let total := incs.foldl (· + ·) 0
       let notWorse := decide (q0 - eps ≤ q1)
       let logged := decide (absR (q1 - q0 - total) ≤ eps)
-      some (if notWorse && logged then "holds"
-            else s!"fails notworse={showBool notWorse} logged={showBool logged} q0={showRat q0} q1={showRat q1} sum={showRat total}")) "bad-args"
+      let parentA := parent.toArray
+      let crootA := croot.toArray
+      let par : Nat → Nat := fun u => parentA.getD u 0
+      let comps := clustersWithinForest k A cl par (fun x => crootA.getD x 0)
+      some (if !forestOK k A par then "bad-certificate"
+            else if notWorse && logged && comps then "holds"
+            else s!"fails notworse={showBool notWorse} logged={showBool logged} components={showBool comps} q0={showRat q0} q1={showRat q1} sum={showRat total}")) "bad-args"
   | _, _ => none
 
 end SkNet.Drive.C06
